@@ -1,4 +1,6 @@
 """Spec functions for scalar helpers (C15, C16, C18, C01 numeric kernel): written from the property text."""
+import math
+from praatio.utilities.constants import Point
 from praatio.utilities import errors
 
 
@@ -201,3 +203,30 @@ def prepTgForSaving_verbatim(tg, includeBlankSpaces, minTimestamp, maxTimestamp,
     if maxTimestamp is not None:
         tg["xmax"] = maxTimestamp
     return tg
+
+
+# ---- C20: detectPitchErrors: "jumps by more than the given ratio" ------------------------------------------------
+
+
+def detectPitchErrors(pitchList, maxJumpThreshold=0.70, tgToMark=None):
+    """the times of the samples whose pitch, relative to the preceding sample, fell to at most the ratio or rose to at
+    least its inverse, each marked with the ratio current / previous (voiced pitch tracks: every value > 0)"""
+    if maxJumpThreshold < 0 or maxJumpThreshold > 1:
+        raise errors.ArgumentError("")
+    return ([Point(pitchList[i][0], str(pitchList[i][1] / pitchList[i - 1][1]))
+             for i in range(1, len(pitchList))
+             if (pitchList[i - 1][1] <= pitchList[i][1] * maxJumpThreshold
+                 or pitchList[i - 1][1] >= pitchList[i][1] / maxJumpThreshold)], None)
+
+
+# ---- C20: getPitchMeasures: "mean, max, min, range, population variance and deviation, with optional zero removal"
+
+
+def getPitchMeasures(f0Values, name=None, label=None, medianFilterWindowSize=None, filterZeroFlag=False):
+    fs = f0Values if medianFilterWindowSize is None else medianFilter(f0Values, medianFilterWindowSize, True)
+    vs = [v for v in fs if v != 0] if filterZeroFlag else fs
+    if len(vs) == 0:
+        return (0.0, 0.0, 0.0, 0.0, 0.0, 0.0)
+    mean = sum(vs) / float(len(vs))
+    var = sum([(v - mean) ** 2 for v in vs]) / float(len(vs))
+    return (mean, max(vs), min(vs), max(vs) - min(vs), var, math.sqrt(var))
